@@ -308,4 +308,11 @@ def gen_fit_cfg(st: Stream, *, kinds=None, max_iter=12, allow_mixture=False) -> 
     _vary_shape(st, cfg)
     if st.bernoulli(0.2):
         cfg["ahl"] = st.choice([3, 5, 10])
+    # tempered fits: the annealing phase may end before, at or after the burn-in boundary
+    if st.bernoulli(0.3) and n_iter >= 4:
+        frac = st.choice([0.3, 0.5, 0.9, 1.0])
+        n_ann = int(frac * n_iter)
+        n_plateau = st.randint(2, 4)
+        if n_ann >= 1:
+            cfg["annealing"] = {"do_annealing": True, "initial_temperature": st.choice([2, 5, 10]), "n_plateau": min(n_plateau, n_ann + 1), "n_iter_frac": frac}
     return cfg
